@@ -179,6 +179,24 @@ impl Ctx {
         true
     }
 
+    /// Engines that need a fault-free pre-run of a scenario in EVERY shard (to learn its fault points) call this first: in trace mode
+    /// the scenario's fault-free descriptor is printed, so that a death inside the pre-run (a memory monitor aborting the process, a std
+    /// precondition check) is attributed to that case by the driver instead of being an engine death outside any case. Returns false if
+    /// the run is a single-case replay of a different scenario (the pre-run is then skipped).
+    pub fn prerun(&self, scenario: &str, fault_free_desc: &str) -> bool {
+        if let Some(o) = &self.only {
+            if !o.starts_with(scenario) {
+                return false;
+            }
+        }
+        if self.trace {
+            let mut out = std::io::stdout().lock();
+            let _ = writeln!(out, "CASE {fault_free_desc}");
+            let _ = out.flush();
+        }
+        true
+    }
+
     /// Run one case.  `f` must be deterministic and re-runnable: it is executed once, and a
     /// second time if the first run reports a violation (the two reports must be identical).
     /// An unexpected (non-injected, uncaught) panic inside `f` is itself a violation.
